@@ -17,6 +17,30 @@ def make_cases(rng, tier, n):
             c["ops"] = []
             pipe = False
         names = [sp for sp, st in c["stages"]]
+        if pipe and rng.random() < 0.3:
+            # "dud itself never touches a stage's artifacts while running": every stage gets a command that looks but does not
+            # touch (tools/vprobe), in states where the outputs are committed links, dangling links (cache gone), absent or edited
+            ops = [("run", False, []), ("commit", rng.choice("lc"), [])]
+            state = rng.choice(["links", "dangling", "absent", "edited"])
+            outs = [o for sp, st in c["stages"] for o in st["out"]]
+            if state == "dangling":
+                ops.append(("wipecache",))
+            elif state == "absent":
+                ops.append(("rm", rng.choice(outs)[0]))
+            elif state == "edited":
+                o = rng.choice(outs)
+                ops.append(("write", o[0] + (b"/f" if "d" in o[1] else b""), "g:77:7"))
+            for sp, st in c["stages"]:
+                ops.append(("setcmd", sp, st["cmd"].replace(b"vcmd", b"vprobe", 1)))
+            ops.append(("run", False, [rng.choice(names)] if rng.random() < 0.5 else []))
+            ops.append(("status", []))
+            c["ops"] = ops
+            c["tail_ops"] = []
+            c["hist_info"] = dict(commits=1)
+            c["probe_state"] = state
+            stats["probe_" + state] = stats.get("probe_" + state, 0) + 1
+            cases.append(c)
+            continue
         if not pipe and rng.random() < 0.15:
             # a fresh clone: nothing committed yet, the cache directory does not exist; read-only commands must not create it
             c["cache"] = rng.choice(["rel", "abs"])
@@ -89,11 +113,22 @@ def oracle(run):
         for p, fl in st.get("out", []):
             if "s" in fl:
                 skipc.append((p, fl))
+    cmds = {sp: stg.get("cmd", b"") for sp, stg in case["stages"]}
     for st in run["steps"]:
         op = st["op"]
         k = op[0]
         what = "`%s`" % s1.op_text(op)
         snap = st["snap"]
+        if k == "setcmd":
+            cmds[op[1]] = op[2]
+        if k == "run" and st["rc"] == 0:
+            # a stage whose command does not touch anything: whatever changed below its outputs was done by dud itself
+            for sp, stg in case["stages"]:
+                if cmds.get(sp, b"").startswith(b"vprobe"):
+                    for p, fl in stg.get("out", []):
+                        if ws_under(prev, p) != ws_under(snap, p):
+                            v.append(("run-touched-artifact", "%s changed the output %s of stage %s although the stage's command does not touch it" % (
+                                what, p.decode(), sp.decode())))
         if k in ("status", "graph"):
             for key in ("lines", "cache", "remote", "meta", "stray"):
                 if prev[key] != snap[key]:
